@@ -4,7 +4,7 @@
 From Coq Require Import List NArith Bool Arith Sorted.
 From Coq Require Import Strings.Byte.
 Require Import BS.Bytes BS.Common BS.Api BS.Layout BS.Format BS.FormatFacts BS.Spec BS.SpecStep.
-Require Import BS.FS BS.FSFacts BS.Meta BS.MetaFacts BS.Header BS.Reader BS.ReaderFacts BS.Index BS.Data BS.DataFacts BS.Seek BS.Series BS.SeriesFacts BS.HeaderFacts BS.OpenFacts BS.World BS.WorldFacts.
+Require Import BS.FS BS.FSFacts BS.Meta BS.MetaFacts BS.Header BS.Reader BS.ReaderFacts BS.Index BS.Data BS.DataFacts BS.Seek BS.Series BS.SeriesFacts BS.HeaderFacts BS.OpenFacts BS.World BS.WorldFacts BS.HistoryFacts.
 Import ListNotations.
 
 (* (F) codec core, every payload size, every u64 timestamp, every payload byte pattern, every length *)
@@ -86,3 +86,18 @@ Theorem C01_across_reopen : forall p fs s uhdr name popt hdropt cb l, 4 <= p ->
                      \/ (select lo hi l = [] /\ read_all s' lo hi fs = (fs, Err ERange)).
 Proof. exact reopen_then_read. Qed.
 Print Assumptions C01_across_reopen.
+
+(* (I refines S) over EVERY history (HistoryFacts: appends accepted or refused, reads, close-and-reopen steps, crashes that cut
+   the data file at any byte and the index at any byte, each followed by an open - see props/C05.v for hop / hexec / hspec /
+   hvalid): after the history a full read returns exactly the lines Layer S expects - the appended lines minus what the
+   crashes cut off *)
+Theorem C01_every_history : forall p name uhdr,
+  (len (params_to_text BSgen.Consts.version (N.of_nat p) ++ uhdr) <= 65535)%N -> (N.of_nat p < 2^64)%N ->
+  forall fs cb0 ops,
+  fs_mem fs (name ++ ext_data) = false -> fs_mem fs (name ++ ext_index) = false -> hvalid_all p name uhdr [] ops ->
+  exists fs0 s0 st', series_new name (N.of_nat p) uhdr [] cb0 fs = (fs0, Ok s0)
+    /\ hrun name (fs0, s0) ops = Some st'
+    /\ let l := fold_left (hspec p) ops [] in
+       read_all (snd st') Unb Unb (fst st') = (fst st', Ok l) \/ (l = [] /\ read_all (snd st') Unb Unb (fst st') = (fst st', Err ERange)).
+Proof. exact history_full_read. Qed.
+Print Assumptions C01_every_history.
